@@ -603,7 +603,7 @@ int main(int argc, char** argv) {
     double cap;
     std::string fl = opt.flavour;
     if (fl == "asan") { nRuns = thorough ? 80000 : 3000; cap = thorough ? 420 : 40; if (opt.workers > 8) opt.workers = 8; }
-    else if (fl == "tsan") { nRuns = thorough ? 60000 : 2500; cap = thorough ? 420 : 40; if (opt.workers > 8) opt.workers = 8; }
+    else if (fl == "tsan") { nRuns = thorough ? 60000 : 2500; cap = thorough ? 420 : 40; if (opt.workers > 8) opt.workers = 8; if (opt.property == "C12") { nRuns = thorough ? 30000 : 1500; cap = thorough ? 300 : 30; } }
     else { nRuns = thorough ? 800000 : 16000; cap = thorough ? 480 : 40; }
     if (opt.runs > 0) nRuns = (uint64_t)opt.runs;
     if (opt.wallCap > 0) cap = opt.wallCap;
@@ -711,7 +711,8 @@ int main(int argc, char** argv) {
     // vacuity guard
     std::vector<std::string> mandatory = {"yields", "gc.ticks_delivered", "gc.collections", "gc.collections_with_garbage", "gc.collected_with_pending_temp", "fault.error_injected", "gc.notify_lost", "gc.timer_threads_exited"};
 #ifdef GCS_ATOMIC_SEAM
-    if (opt.property == "C11") { mandatory.push_back("gc.timer_parked_mid_slice"); mandatory.push_back("gc.notify_while_timer_mid_slice"); }
+    mandatory.push_back("gc.timer_parked_mid_slice");
+    if (opt.property == "C11") mandatory.push_back("gc.notify_while_timer_mid_slice");
 #endif
     std::vector<std::string> stuck;
     for (auto& m : mandatory)
